@@ -3,7 +3,7 @@ CONSTANTS
   TW = 1
   LW = 1
   Oct = {0, 1, 2}
-  MaxLen = 9
+  MaxLen = 12
   Variant = "strict"
   SizeBits = 16
 INVARIANTS NoFab Exact SerNeverPanics
